@@ -25,11 +25,12 @@ VERUS_REPLAY_KEYS = {
     "C02_C05_assembly": ["C02.assembly"],
     "C02_unnesting": ["C02.needs_unnesting"],
     "C14_numbering": ["C14.assign"],
+    "C07_octets_to_bits": ["C07.octet_string_to_bit_string"],
 }
 
 PROPERTIES.update({
     "C02": {
-        "verus": ["C02_C05_assembly", "C02_unnesting"],
+        "verus": ["C02_C05_assembly", "C02_unnesting", "C02_members"],
         "kani_quick": [], "kani_thorough": [],
         "bounded_native": [
             {"unit": "b_generate_constructed", "functions": "Backend::generate_module -> generate_tld -> generate_sequence_or_set / generate_choice -> format_sequence_or_set_members, format_choice_options, format_sequence_member, format_tag, join_annotations (generator/rasn: quote!/TokenStream code)",
@@ -88,7 +89,7 @@ PROPERTIES.update({
         ],
     },
     "C03": {
-        "verus": [],
+        "verus": ["C02_members"],
         "kani_quick": ["k_c03_tagenv_add", "k_c03_asn_tag_from", "k_c03_module_header_from", "k_layout_sentinel_scalars"],
         "kani_thorough": [],
         "bounded_native": [
@@ -96,18 +97,20 @@ PROPERTIES.update({
              "bound": "IR built directly: module default {AUTOMATIC, IMPLICIT, EXPLICIT} x EXTENSIBILITY IMPLIED on/off x {SEQUENCE, SET, CHOICE} x 1..=3 BOOLEAN components (each OPTIONAL or not, tagged or not) x extension marker absent or at any index 0..=n, followed by a second module with its own extensibility default on the same backend (exhaustive product, 10248 cases); checks the generated token text"},
             {"unit": "b_resolve_class_reference_frame", "functions": "ASN1Type::resolve_class_reference (validator/linking/mod.rs)",
              "bound": "SEQUENCE / SET / CHOICE with 1..=3 BOOLEAN components, each untagged / IMPLICIT-tagged / EXPLICIT-tagged, extension marker absent or at any index (exhaustive)"},
+            {"unit": "b_c03_element_tag", "functions": "Rasn::generate_sequence_or_set_of (generator/rasn/builder.rs), via Backend::generate_module",
+             "bound": "module default x {SEQUENCE OF, SET OF} x {type assignment, SEQUENCE component} x element {BOOLEAN, type reference} x element tag present/absent (exhaustive, 48 cases)"},
             {"unit": "b_c03_apply_tagenv_lists", "functions": "ToplevelDefinition::apply_tagging_environment (intermediate/mod.rs)",
-             "bound": "module default in {AUTOMATIC, IMPLICIT, EXPLICIT} x kind in {SEQUENCE, SET, CHOICE, primitive} x tag on the assignment x 0..=3 components, each untagged / keyword-less / IMPLICIT / EXPLICIT (exhaustive product, 3108 cases)"},
+             "bound": "module default in {AUTOMATIC, IMPLICIT, EXPLICIT} x kind in {SEQUENCE, SET, CHOICE, primitive} x tag on the assignment x 0..=3 components, each untagged / keyword-less / IMPLICIT / EXPLICIT, the first component optionally an anonymous SEQUENCE or a SEQUENCE OF with tagged element and anonymous CHOICE element type (exhaustive product, 63588 cases)"},
         ],
         "unverified": [
-            "WHERE the combination rule is applied: ToplevelDefinition::apply_tagging_environment is outside both verifiers (iter_mut().for_each closures; Kani layout defect and a 15-minute stall); it is covered only by the bounded stand-in b_c03_apply_tagenv_lists (depth 1: assignment tag, SEQUENCE/SET components, CHOICE alternatives). It never visits SequenceOrSetOf::element_tag or anonymous nested types, which no contract here covers",
+            "WHERE the combination rule is applied: ToplevelDefinition::apply_tagging_environment is outside both verifiers (iter_mut().for_each closures; Kani layout defect and a 15-minute stall); it is covered only by the bounded stand-in b_c03_apply_tagenv_lists (assignment tag, SEQUENCE/SET components, CHOICE alternatives, one level of anonymous nesting and SEQUENCE OF element tags)",
             "TAGS clause parsing (lexer/module_header.rs environments: a module without TAGS clause is parsed as IMPLICIT, pinned by a unit test) and asn_tag (nom combinators)",
             "format_tag, tagged-CHOICE-forced-explicit, automatic_tags selection (generator/rasn: TokenStream code)",
             "the clauses 'at every nesting depth', 'tagged CHOICE or open type => explicit' and 'tagged automatically exactly when ...' are NOT decided by this check",
         ],
     },
     "C04": {
-        "verus": [],
+        "verus": ["C02_members"],
         "kani_quick": ["k_c04_add_assign"],
         "kani_thorough": [],
         "bounded_native": [
@@ -128,7 +131,7 @@ PROPERTIES.update({
         ],
     },
     "C07": {
-        "verus": [],
+        "verus": ["C07_octets_to_bits"],
         "kani_quick": ["k_c07_hex_to_bools", "k_c07_octet_to_bits", "k_c07_bits_to_octets", "k_c07_well_known", "k_c07_unknown_arc_names"],
         "kani_thorough": ["k_c07_long_bits_to_octets"],
         "bounded_native": [
@@ -138,7 +141,7 @@ PROPERTIES.update({
              "bound": "1..=3 named bits with distinct numbers from 0..=5 (any declaration order) x every subset of names listed in the value (exhaustive product)"},
         ],
         "kani_bounded": {"k_c07_bits_to_octets": "bit-string lengths {0,8,9} with symbolic contents", "k_c07_long_bits_to_octets": "lengths {1,7,15,16,17,24}",
-                         "k_c07_octet_to_bits": "one octet at a time, all 256 values (complete per octet); slice length 1",
+                         "k_c07_octet_to_bits": "one octet at a time, all 256 values (complete per octet); arbitrary lengths are covered by the Verus unit C07_octets_to_bits",
                          "k_c07_unknown_arc_names": "a fixed list of 10 non-table names"},
         "unverified": [
             "bit_string_value_from_named_bits (validator/linking/mod.rs): scans [DistinguishedValue] (Kani layout defect) with map/any/find_map closures (outside Verus) — covered only by the bounded stand-in b_c07_named_bits",
